@@ -82,17 +82,20 @@ def ctx_variants(params: List[Dict[str, Any]], flavour_async: bool) -> Iterator[
     # client parameters named like things the library itself handles internally (any name is the application's to choose)
     named = [p for p in params if p['kind'] in ('PK', 'KO')]
     if named:
-        pick = INTERNAL_LOOKING[(len(params) * 7 + sum(len(p['name']) for p in params) + ('default' in named[0])) % len(INTERNAL_LOOKING)]
-        first = True
-        cand2 = []
-        for p in params:
-            if first and p['kind'] in ('PK', 'KO'):
-                cand2.append({**p, 'name': pick})
-                first = False
-            else:
-                cand2.append(p)
-        if hm.valid_order(cand2):
-            yield {'params': cand2, 'flavour': fn, 'ctx': 'none'}
+        # every such name for one-parameter signatures, one (rotating) name for longer ones
+        start = (len(params) * 7 + sum(len(p['name']) for p in params) + ('default' in named[0])) % len(INTERNAL_LOOKING)
+        picks = INTERNAL_LOOKING if len(params) == 1 else [INTERNAL_LOOKING[start]]
+        for pick in picks:
+            first = True
+            cand2 = []
+            for p in params:
+                if first and p['kind'] in ('PK', 'KO'):
+                    cand2.append({**p, 'name': pick})
+                    first = False
+                else:
+                    cand2.append(p)
+            if hm.valid_order(cand2):
+                yield {'params': cand2, 'flavour': fn, 'ctx': 'none'}
 
 
 INTERNAL_LOOKING = ['signature', 'method', 'params', 'request', 'cls', 'kwargs', 'exclude', 'name', 'validator', 'func', 'handler', 'error']
